@@ -137,10 +137,10 @@ def axis_indices(S, rng, tier):
     ints = list(range(-(S + 2), S + 3))
     ff = idx_fields(S, 1)
     sl = [slice(a, b) for a in ff for b in ff]
-    if tier == "quick" and len(sl) > 24:
-        keep = [s for s in sl if (s.start in (None, 0, S - 1, S) and s.stop in (None, 0, 1, S, S + 1, -1))
-                or (s.start in (-1, -S - 1) and s.stop in (None, S))]
-        sl = keep + rng.sample(sl, 8)
+    if tier == "quick" and len(sl) > 14:
+        keep = [s for s in sl if (s.start in (None, S - 1, S) and s.stop in (None, 0, S, S + 1))
+                or (s.start in (-1, -S - 1) and s.stop in (None, -1))]
+        sl = keep + rng.sample(sl, 4)
     return ints, sl
 
 
@@ -160,9 +160,9 @@ def gen_tiles_cases(out, tier):
 
     def ops_for(base, how, ex_axis, light=False):
         """all cases for one tiling; ex_axis is the axis whose index set is exhaustive;
-        in the quick tier the GeoboxTiles counterparts are generated for every third tiling"""
+        in the quick tier the GeoboxTiles counterparts are generated for every fourth tiling"""
         counter[0] += 1
-        geo = not light and (tier != "quick" or counter[0] % 3 == 0)
+        geo = not light and (tier != "quick" or counter[0] % 4 == 0)
         hb = f"{cpair(base)} {chow(how)}"
         key = (tuple(base), enc(how))
         t, kind = cres(lambda t: clist(tiles_desc(t)), lambda: mk_tiles(base, how))
@@ -194,8 +194,9 @@ def gen_tiles_cases(out, tier):
                 {"op": "getitem", "base": list(base), "how": enc(how), "idx": list(idx), "result": t} if k == 3 else None)
             t, kind = cres(cpair, lambda: T.tile_shape(idx).yx)
             add("tile_shape:" + kind, f"CTileShape {hb} {cpair(idx)} {t}", (key, idx))
-            t, kind = cres(lambda c: clist(tiles_desc(c)), lambda: T.crop(idx))
-            add("crop_int:" + kind, f"CCrop {hb} {cidx(idx)} {t}", (key, idx))
+            if tier != "quick" or k % 2 == 0:
+                t, kind = cres(lambda c: clist(tiles_desc(c)), lambda: T.crop(idx))
+                add("crop_int:" + kind, f"CCrop {hb} {cidx(idx)} {t}", (key, idx))
             if not geo:
                 continue
             t, kind = cres(cpair, lambda: G.chunk_shape(idx).yx)
@@ -596,6 +597,9 @@ def p_locate_roundtrip(base, how, pix):
     """usable for huge sizes: locate(pix) is a valid index and its region contains pix"""
     T = mk_tiles(tuple(base), how)
     S, B = T.shape.yx, T.base.yx
+    want = (sum(how[0]), sum(how[1])) if isinstance(how[0], (tuple, list)) else tuple(base)
+    if tuple(B) != want:
+        return False, f"base {B} but the tiled rectangle is {want}"
     if not (0 <= pix[0] < B[0] and 0 <= pix[1] < B[1]):
         return True, "pixel outside the rectangle"
     rc = T.locate(tuple(pix))
@@ -910,8 +914,47 @@ def replay(rp) -> int:
 
 
 META = {
-    "text": "TODO",
-    "note": "TODO",
+    "text": ("Coq theorems (coq/Props/C04.v, 29, all closed under the global context) over Gallina models of "
+             "Tiles, VariableSizedTiles, clip_tiles, GeoboxTiles and BlockAssembler.  For every base size >= 0 and tile "
+             "size >= 1 (regular) and every pair of chunk tuples with non-negative entries and totals < 2^63 (variable): "
+             "the tile count is the ceiling division; [r,c] returns tile_region = [B r, B(r+1)) x [B c, B(c+1)) with "
+             "B = min(i*n, N) resp. the prefix sums, IndexError exactly outside [-S,S) (negative indices from the right); "
+             "every pixel of the rectangle lies in exactly one tile, namely locate(pixel); locate of any pixel of tile rc "
+             "is rc; IndexError outside; regions are pairwise disjoint, inside the rectangle, their union is the rectangle; "
+             "regular tiles are never empty; tile_shape/chunks/shape/base agree with the regions and sum(chunks) = base; "
+             "base 0 gives no tiles and IndexError everywhere; a slice selection is the union of its tiles; crop to a "
+             "block = tiling of the cropped rectangle with indices shifted by the block origin (shape, base, every tile); "
+             "clip_tiles = crop to the bounding block with re-based indices; GeoboxTiles[r,c] = base cropped to "
+             "Tiles[r,c], chunk_shape its shape, crop/clip keep every tile's absolute pixel window.  BlockAssembler: the "
+             "constructor accepts every subset of well-shaped blocks and computes the mosaic shape, rejects a mis-shaped "
+             "block; a (ry,rx) request is normalised to a window; for every window with 0<=start<=stop, every subset of "
+             "present blocks, every extra-axis re-indexing and cast, extract = window shape and at each pixel the block "
+             "value of the tile containing it if present else fill (proved by instantiating C17's slice_intersect3 "
+             "theorem and the partition theorem).  The models are tied to odc/geo/roi.py, geobox.py, _blocks.py by "
+             "exhaustive small-domain + random large differential correspondence (vm_compute) and direct property "
+             "predicates on the implementation with numpy as the array reference."),
+    "note": ("Trusted: Coq kernel; the hand-written models coq/Model/Tiles.v and coq/Model/Blocks.v (validated by "
+             "correspondence on every run: all regular tilings with base 0..7/10 x tile 1..base+2, all compositions of "
+             "0..5/7, zero chunks, sizes up to 2^64, malformed inputs).  Modelled rather than verified / oracle "
+             "contracts: numpy int64 asarray (OverflowError outside int64) and cumsum (wraps: wrap64), a[i] on 1-d "
+             "arrays (np_at), np.diff, np.searchsorted(right) on sorted offsets as 'number of entries <= v'; Python "
+             "tuple slicing; numpy basic slicing clamps to the extent (eff), np.full, np.copyto between views of equal "
+             "extents (np_copyto_view; broadcasting of extent-1 sources is not modelled, the theorem shows the extents "
+             "are equal), np.squeeze on shapes only; dtype promotion/casting is an arbitrary function cast (oracle); the "
+             "slicing of the leading/trailing axes by the window's extra slices is an arbitrary re-indexing esel "
+             "(oracle; correspondence restricted to in-range extra slices); min/max over the selection in clip_tiles as "
+             "folds.  A GeoBox is abstracted to its pixel window (offset, shape) in a root grid: the affine algebra of "
+             "GeoBox.__getitem__ is C02's subject; the harness checks the translation is exact (power-of-two "
+             "resolution, sizes < 2^53).  Domain restrictions in the theorems: tile sizes >= 1 (0 is proved to be an "
+             "error), base >= 0 (>= 1 for tile_shape/chunks; base 0 has its own theorem, and tile_shape((-1,..)) then "
+             "answers the tile size: recorded Example), chunk entries >= 0 with total < 2^63 (the Example "
+             "offsets_wrap_beyond_int64 shows the bound is needed), slice selections with 0 <= a < S, a <= b <= S "
+             "(Tiles[S:S] raises IndexError for regular tiles and is empty for variable ones: recorded Example, not a "
+             "finding), selections for clip inside the grid, block keys in range and distinct, windows with "
+             "0 <= start <= stop.  Not proved: the N-d bookkeeping of _norm_roi beyond the 2-tuple case and np.squeeze "
+             "(covered by correspondence on shapes), planes_yx (search only), dtype selection.  Three defects were "
+             "repaired in odc-geo (float ceil division, int32 offsets, negative indices of VariableSizedTiles); the "
+             "models follow the repaired code and the witnesses are in corpus/C04."),
     "technique": "Coq proof over hand-written Gallina model + exhaustive small-domain differential correspondence (vm_compute)",
     "design_ref": "DESIGN.md section 5, C04",
 }
